@@ -19,6 +19,10 @@ theorem shipped_encrypts (maxRecords cacheSize : Nat) : (Cfg.shipped maxRecords 
   show Gen.Store.shippedEncrypt = true
   decide
 
+/-- the start-up scan of the current source removes no file because of its size (regenerated from
+`update_records_from_an_existing_store`; `restart_keeps_completed` is proved against this) -/
+theorem scan_has_no_size_test : Gen.Store.scanDropsOversized = false := by decide
+
 theorem runFrom_append (cfg : Cfg) (dist : Nat → Nat) (s : St) (ops ops' : List Op) :
     runFrom cfg dist s (ops ++ ops') = runFrom cfg dist (runFrom cfg dist s ops) ops' := by
   induction ops generalizing s with
@@ -73,8 +77,8 @@ theorem lookup_crashDisk_of_no_write (s : St) (torn : List (Nat × Nat)) (k : Na
       · rfl
   exact this s.disk
 
-theorem mem_scanIndex {enc : Bool} {disk : List (Nat × File)} {k : Nat} {rt : RType} :
-    (k, rt) ∈ scanIndex enc disk ↔ ∃ f, (k, f) ∈ disk ∧ scanType enc f = some rt := by
+theorem mem_scanIndex {cfg : Cfg} {disk : List (Nat × File)} {k : Nat} {rt : RType} :
+    (k, rt) ∈ scanIndex cfg disk ↔ ∃ f, (k, f) ∈ disk ∧ scanType cfg f = some rt := by
   induction disk with
   | nil => simp [scanIndex]
   | cons x xs ih =>
@@ -113,18 +117,21 @@ theorem restart_keeps_completed (cfg : Cfg) (dist : Nat → Nat) (s : St) (hd : 
     rw [lookup_crashDisk_of_no_write s torn k hq]; exact hfile
   have hnd := nodup_crashDisk hd torn
   have hmem := lookup_some_mem hcd
-  have hst : ∃ rt, scanType cfg.encrypt (.full v) = some rt := by
-    simp only [scanType, readFile, hdrOf]
+  have hst : ∃ rt, scanType cfg (.full v) = some rt := by
+    -- the start-up scan of the current source has no size test (regenerated flag)
+    have hsz : oversized cfg (.full v) = false := by
+      simp [oversized, show Gen.Store.scanDropsOversized = false from rfl]
+    simp only [scanType, hsz, Bool.false_eq_true, ↓reduceIte, readFile, hdrOf]
     cases h : hdrClass v with
     | chunk => exact ⟨_, rfl⟩
     | other => exact ⟨_, rfl⟩
     | bad => exact absurd h hhdr
   obtain ⟨rt, hrt⟩ := hst
-  have hidx : lookup k (scanIndex cfg.encrypt (crashDisk s torn)) = some rt :=
+  have hidx : lookup k (scanIndex cfg (crashDisk s torn)) = some rt :=
     lookup_of_mem ((keys_scanIndex_sublist _ _).nodup hnd) (mem_scanIndex.mpr ⟨_, hmem, hrt⟩)
-  have hdisk : lookup k ((crashDisk s torn).filter (fun e => (scanType cfg.encrypt e.2).isSome)) = some (.full v) := by
+  have hdisk : lookup k ((crashDisk s torn).filter (fun e => (scanType cfg e.2).isSome)) = some (.full v) := by
     apply lookup_of_mem
-    · have : (keys ((crashDisk s torn).filter (fun e => (scanType cfg.encrypt e.2).isSome))).Sublist (keys (crashDisk s torn)) := by
+    · have : (keys ((crashDisk s torn).filter (fun e => (scanType cfg e.2).isSome))).Sublist (keys (crashDisk s torn)) := by
         simp only [keys]; exact (List.filter_sublist).map _
       exact this.nodup hnd
     · exact List.mem_filter.mpr ⟨hmem, by simp [hrt]⟩
@@ -149,9 +156,9 @@ theorem restart_removed_stay_removed (cfg : Cfg) (dist : Nat → Nat) (s : St)
   have hcd : lookup k (crashDisk s torn) = none := by
     rw [lookup_crashDisk_of_no_write s torn k hq]; exact hfile
   have hk : k ∉ keys (crashDisk s torn) := lookup_none_iff.mp hcd
-  have hidx : lookup k (scanIndex cfg.encrypt (crashDisk s torn)) = none :=
+  have hidx : lookup k (scanIndex cfg (crashDisk s torn)) = none :=
     lookup_none_iff.mpr (fun hm => hk ((keys_scanIndex_sublist _ _).subset hm))
-  have hdisk : lookup k ((crashDisk s torn).filter (fun e => (scanType cfg.encrypt e.2).isSome)) = none := by
+  have hdisk : lookup k ((crashDisk s torn).filter (fun e => (scanType cfg e.2).isSome)) = none := by
     apply lookup_none_iff.mpr
     intro hm
     apply hk
@@ -190,6 +197,7 @@ example :
   decide
 
 #print axioms SafeNet.Props.C02.shipped_encrypts
+#print axioms SafeNet.Props.C02.scan_has_no_size_test
 #print axioms SafeNet.Props.C02.restart_sound
 #print axioms SafeNet.Props.C02.restart_sound_shipped
 #print axioms SafeNet.Props.C02.restart_keeps_completed
